@@ -145,10 +145,18 @@ func (f *faultArm) fn(c *doubles.Call) error {
 	return nil
 }
 
+// spent reports whether the armed fault has been delivered; it waits a little, because a step that
+// is expected to end blocked (short watchdog) may return before the released operation has run.
 func (f *faultArm) spent() bool {
-	f.mu.Lock()
-	defer f.mu.Unlock()
-	return !f.armed && f.hits > 0
+	for i := 0; ; i++ {
+		f.mu.Lock()
+		ok := !f.armed && f.hits > 0
+		f.mu.Unlock()
+		if ok || i >= 4000 {
+			return ok
+		}
+		time.Sleep(500 * time.Microsecond)
+	}
 }
 
 // ---- rig -----------------------------------------------------------------------------------
